@@ -21,11 +21,13 @@ namespace Access
 inductive Obj
   | self
   | other
+  | key     -- a key object (`VerifyingKey` / `Public_key`): its field `point` refers to a point object
 deriving DecidableEq, Repr, Inhabited
 
 inductive Fld
   | coords   -- `_PointJacobi__coords`
   | pre      -- `_PointJacobi__precompute`
+  | point    -- `Public_key.point` (of a key object): a reference to a point object
 deriving DecidableEq, Repr, Inhabited
 
 inductive Tok
